@@ -10,3 +10,4 @@ def check(rep, tier):
     rep.run(rules_exact.run, rep, tier, rules_exact.CLAUSE_PROPS["C01"])
     from contracts import rules_numeric
     rep.run(rules_numeric.run, rep, tier, clauses=('N-vjp',), only_complex='real-only')
+    rep.run(rules_numeric.run_scale, rep)
